@@ -67,6 +67,11 @@ RECURSION = [
     "def f(a):\n    return f(a - 1)\ndb.Setting = f(3)\n",
     "def f(a):\n    return g(a)\ndef g(a):\n    return f(a)\ndb.Setting = f(1)\n",
     "def f(a):\n    f(a)\nwhile True:\n    f(1)\n    f(2)\n",
+    "def f(a):\n    if a > 0:\n        f(a - 1)\n    db.Setting = a\nf(3)\nf(2)\n",
+    "def f(a):\n    while a > 0:\n        f(a - 1)\n        a -= 1\n    db.Setting = a\nwhile True:\n    f(d0.Setting)\n    f(1)\n",
+    "def f(a):\n    db.Setting = a\n    f(a + 1)\nf(0)\n",
+    "def f(a):\n    return a * f(a - 1)\ndb.Setting = f(4)\ndb.Mode = f(2)\n",
+    "def g(a):\n    db.Mode = a\ndef f(a):\n    g(a)\n    if d0.On:\n        f(a)\nwhile True:\n    f(1)\n    f(2)\n",
 ]
 LUA = [
     "-- lua comment\nlocal x = 1\n",
